@@ -157,8 +157,10 @@ class FitsTiler(object):
 
                 if os.path.exists(os.path.join(self.out_dir, "properties")):
                     self._copy_hips_properties_to_builder()
+                elif os.path.exists(os.path.join(self.out_dir, "index_rel.wtml")):
+                    self._load_builder_from_wtml()
 
-                return
+                return self
 
         if self.tiling_method == TilingMethod.HIPS:
             self._tile_hips(cli_progress, parallel)
@@ -396,6 +398,28 @@ class FitsTiler(object):
             os.symlink(src=absolute_path, dst=link_path)
 
         return dir
+
+    def _load_builder_from_wtml(self):
+        """
+        Fill in the builder from the ``index_rel.wtml`` file of a tile
+        directory that is being reused, so that it describes the existing
+        dataset rather than an empty one.
+        """
+        from wwt_data_formats.folder import Folder
+        from wwt_data_formats.imageset import ImageSet
+        from wwt_data_formats.place import Place
+
+        folder = Folder.from_file(os.path.join(self.out_dir, "index_rel.wtml"))
+
+        for child in folder.children:
+            if isinstance(child, Place) and child.foreground_image_set is not None:
+                self.builder.place = child
+                self.builder.imgset = child.foreground_image_set
+                break
+            elif isinstance(child, ImageSet):
+                self.builder.imgset = child
+                self.builder.place.foreground_image_set = child
+                break
 
     def _copy_hips_properties_to_builder(self):
         hips_properties = dict()
